@@ -126,6 +126,13 @@ func (s *sseSession) NotificationChannel() chan<- *JSONRPCNotification {
 	return s.notificationChannel
 }
 
+// ssePendingRequest is a server-to-client request waiting for its answer: the answer is accepted
+// only from the session the request was sent to.
+type ssePendingRequest struct {
+	ch        chan *json.RawMessage
+	sessionID string
+}
+
 // jsonRPCEnvelope is a common structure for parsing JSON-RPC messages.
 // It's used to avoid duplicate anonymous struct definitions across functions
 // and can handle both success and error responses.
@@ -753,12 +760,17 @@ func (s *SSEServer) handleResponseMessage(ctx context.Context, rawMessage json.R
 		return
 	}
 
-	// Type assert to the correct channel type.
-	responseChan, ok := responseChanInterface.(chan *json.RawMessage)
+	// Type assert to the pending request; only the addressed session may answer it.
+	pending, ok := responseChanInterface.(*ssePendingRequest)
 	if !ok {
 		s.logger.Errorf("Invalid response channel type for request ID: %d", requestIDUint)
 		return
 	}
+	if session == nil || pending.sessionID != session.sessionID {
+		s.logger.Warnf("Ignoring response for request ID %d from a session it was not sent to", requestIDUint)
+		return
+	}
+	responseChan := pending.ch
 
 	// Prepare response data.
 	var responseMessage *json.RawMessage
@@ -878,7 +890,7 @@ func (s *SSEServer) processRequestAsync(ctx context.Context, request *JSONRPCReq
 
 	// Check if this is a response to our roots/list request.
 	if s.isRootsListResponse(request) {
-		s.handleRootsListResponse(request)
+		s.handleRootsListResponse(request, session)
 		return
 	}
 
@@ -939,7 +951,7 @@ func (s *SSEServer) isRootsListResponse(request *JSONRPCRequest) bool {
 }
 
 // handleRootsListResponse processes responses from clients to our roots/list requests.
-func (s *SSEServer) handleRootsListResponse(request *JSONRPCRequest) {
+func (s *SSEServer) handleRootsListResponse(request *JSONRPCRequest, session *sseSession) {
 	var responseID interface{} = request.ID
 	var responseResult json.RawMessage
 	var responseError json.RawMessage
@@ -991,12 +1003,17 @@ func (s *SSEServer) handleRootsListResponse(request *JSONRPCRequest) {
 		return
 	}
 
-	// Type assert to the correct channel type.
-	responseChan, ok := responseChanInterface.(chan *json.RawMessage)
+	// Type assert to the pending request; only the addressed session may answer it.
+	pending, ok := responseChanInterface.(*ssePendingRequest)
 	if !ok {
 		s.logger.Errorf("Invalid response channel type for request ID: %d", requestIDUint)
 		return
 	}
+	if session == nil || pending.sessionID != session.sessionID {
+		s.logger.Warnf("Ignoring response for request ID %d from a session it was not sent to", requestIDUint)
+		return
+	}
+	responseChan := pending.ch
 
 	// Handle error response.
 	if len(responseError) > 0 {
@@ -1369,7 +1386,7 @@ func (s *SSEServer) SendRequest(ctx context.Context, sessionID string, request *
 	if s.responses == nil {
 		s.responses = make(map[uint64]interface{})
 	}
-	s.responses[requestIDUint] = resultChan
+	s.responses[requestIDUint] = &ssePendingRequest{ch: resultChan, sessionID: sessionID}
 	s.responsesMu.Unlock()
 
 	// Clean up the response channel when done
